@@ -1,6 +1,8 @@
 """C12 - volume, area, centroid, bounding box, face normals and longest axis are exact and frame-independent."""
+import os
 import runner as R
 from runner import Inv, Merged
+from checks.C15 import tsan_reports
 
 ID = "C12"
 MANIFEST = (
@@ -50,11 +52,23 @@ def run(tier, seed, t0):
     for k0 in range(0, nh, 60000):
         R.run_inv(Inv("geometry_hist", min(60000, nh - k0), "plain", timeout=T(tier, 900, 14400), first=7000000 + k0, tag="geometry_hist/plain" if nh <= 60000 else "geometry_hist/plain/slice%d" % (k0 // 60000)), seed, wd, m)
     R.run_inv(Inv("geometry_hist", T(tier, 100, 2000), "asan", timeout=T(tier, 900, 14400), first=7000000 + nh, tag="geometry_hist/asan"), seed, wd, m)
+    # the longest axis asked for by 16 threads at once (as in cell_divider::run) against the answer of each cell alone; the same under ThreadSanitizer
+    ma = Merged(); npar = T(tier, 8, 400)
+    R.run_inv(Inv("axis_par", npar, "plain", args=["--rounds=%d" % T(tier, 100, 300)], threads=16, shards=1, first=9000000, timeout=T(tier, 900, 14400), tag="axis_par/plain/t16"), seed, wd, ma)
+    tenv = {"TSAN_OPTIONS": "halt_on_error=0:exitcode=0:log_path=%s:history_size=4:external_symbolizer_path=%s" % (os.path.join(wd, "tsan"), R.SYMBOLIZER)}
+    R.run_inv(Inv("axis_par", T(tier, 2, 20), "tsan", args=["--rounds=20"], threads=8, shards=1, first=9100000, timeout=T(tier, 900, 14400), env=tenv, tag="axis_par/tsan/t8"), seed, wd, ma)
+    reps, total_reports, norepo = tsan_reports(wd, R.builder.repo_dir())
+    ma.add_bins({"tsan_reports_total": total_reports})
+    for key, (cnt, sample) in sorted(reps.items()):
+        ma.violations.append({"key": "axis_par." + key, "msg": "%d reports, first:\n%s" % (cnt, sample), "obs": {"reports": cnt}, "inv": "tsan",
+                              "replay": {"custom": True, "flavour": "tsan", "argv": ["python3", "check.py", "C12", "--tier", tier, "--seed", str(seed)], "note": "race reports vary from run to run: re-run the check"}})
+    m.violations += ma.violations; m.inconclusive += ma.inconclusive; m.harness_failures += ma.harness_failures; m.add_bins(ma.bins)
     b = m.bins; total = total_geometry
     regular = total - sum(b.get("flip_exhaustive_meshes:" + s, 0) for s in SMALL)
     floors = {
         "states_judged_after_a_history": (m.bins.get("hist_judged_states", 0), 3 * nh), "history_cells_with_remeshing": (m.bins.get("hist_cells_with_remeshing", 0), 0.8 * nh),
         "meshes": (total, 0.99 * (n + na)),
+        "longest_axes_asked_concurrently": (ma.bins.get("axes_asked_concurrently", 0), 800 * npar),
         "nontrivial_meshes(all 8 copies evaluated)": (m.nontrivial, 0.99 * (n + na)),
         "builds_checked": (b.get("builds_checked", 0), 8.9 * regular),
         "axis_followed_under_rotation": (b.get("axis_followed_under_rotation", 0), 1.0 * regular),
